@@ -160,4 +160,167 @@ theorem accel_lift (r : ElemRow) (o : Obj) (h : Option Nat) (nb het : Nat)
         · rw [hm3]; exact subBits_right _ _ _ hnb
         · rw [hm3]; exact subBits_left _ _ _ (subBits_right _ _ _ hhet)
 
+/-! ## the accelerated test for ANY pair of states of one element: reduction to the isotope/radical part and the charge bit -/
+
+theorem subBits_bit (k M : Nat) : subBits (1 <<< k) M ↔ M.testBit k = true := by
+  rw [subBits_iff, Nat.one_shiftLeft]
+  constructor
+  · intro h; exact h k (by simp)
+  · intro h i hi
+    simp [Nat.testBit_two_pow] at hi
+    subst hi; exact h
+
+theorem subBits_disjoint (x A B : Nat) (hd : x &&& B = 0) : subBits x (A ||| B) ↔ subBits x A := by
+  rw [subBits_iff, subBits_iff]
+  have hB : ∀ i, x.testBit i = true → B.testBit i = false := by
+    intro i hi
+    have := congrArg (·.testBit i) hd
+    simp only [Nat.testBit_and, hi, Bool.true_and, Nat.zero_testBit] at this
+    exact this
+  constructor
+  · intro h i hi
+    have := h i hi
+    rw [Nat.testBit_or, hB i hi, Bool.or_false] at this
+    exact this
+  · intro h i hi
+    rw [Nat.testBit_or, h i hi]; rfl
+
+def isoRadV3 (mdl : Nat) (iso : Option Nat) (rad : Bool) : Nat :=
+  match Bits.isoTruthy iso with
+  | some i => (1 <<< (i + sIsoOff - mdl)) ||| (if rad then sIsoRad else sIsoNoRad)
+  | none => if rad then sNoIsoRad else sNoIsoNoRad
+
+def qIsoRadV3 (qmdl : Nat) (iso : Option Nat) (rad : Bool) : Nat :=
+  match Bits.isoTruthy iso with
+  | some i =>
+    (if decide (qmdl ≤ i + qIsoLo) && decide (i ≤ qmdl + qIsoHi) then 1 <<< (i + qIsoOff - qmdl) else qIsoNone)
+      ||| (if rad then qIsoRad else qIsoNoRad)
+  | none => if rad then qAnyIsoRad else qAnyIsoNoRad
+
+def chargeBit (c : Int) : Nat := (c + sChargeOff).toNat
+def qChargeBit (c : Int) : Nat := (c + qChargeOff).toNat
+def qRest (qc : Int) : Nat := (1 <<< qChargeBit qc) ||| (qHAll ||| (qHetAll ||| qNbAll))
+
+theorem coreV3_eq (r : ElemRow) (o : Obj) (h : Option Nat) (nb het : Nat) :
+    coreV3 r.mdl (mAtom r o h nb het) = isoRadV3 r.mdl o.isotope o.radical ||| (1 <<< chargeBit o.charge) := rfl
+
+theorem qV3_eq (r : ElemRow) (qmdl : Nat) (q : Obj) :
+    (Bits.qWords qmdl (qAtom r q none) none).v3 = qIsoRadV3 qmdl q.isotope q.radical ||| qRest q.charge := by
+  rw [qV3_split]
+  show (qIsoRadV3 qmdl q.isotope q.radical ||| (1 <<< qChargeBit q.charge)) ||| qHAll ||| qHetAll ||| qNbAll = _
+  simp only [qRest, Nat.or_assoc]
+
+
+instance (x m : Nat) : Decidable (subBits x m) := by unfold subBits; infer_instance
+
+/-- what "found at counts 0 by the own query" says about the encoders -/
+theorem base_unpack (r : ElemRow) (o : Obj) (base : accelFound r o none o (some 0) 0 0 = some true) :
+    ∃ qmdl, r.qmdl = some qmdl ∧
+      Bits.encQAtom qmdl (qAtom r o none) none = .ok (Bits.qWords qmdl (qAtom r o none) none) ∧
+      Bits.atomShiftsOk r.mdl (mAtom r o (some 0) 0 0) = true ∧ (Bits.atomWords r.mdl (mAtom r o (some 0) 0 0)).fit = true ∧
+      Bits.rootOk ⟨(Bits.qWords qmdl (qAtom r o none) none).v1, (Bits.qWords qmdl (qAtom r o none) none).v2,
+          (Bits.qWords qmdl (qAtom r o none) none).v3, (Bits.qWords qmdl (qAtom r o none) none).v4, 0, 0, 0, 0, 1⟩
+        ⟨(Bits.atomWords r.mdl (mAtom r o (some 0) 0 0)).v1, (Bits.atomWords r.mdl (mAtom r o (some 0) 0 0)).v2,
+          (Bits.atomWords r.mdl (mAtom r o (some 0) 0 0)).v3, (Bits.atomWords r.mdl (mAtom r o (some 0) 0 0)).v4, 0, 0, 1⟩ = true := by
+  unfold accelFound at base
+  cases hq : r.qmdl with
+  | none => rw [hq] at base; cases base
+  | some qmdl =>
+    rw [hq] at base
+    simp only at base
+    cases hQ : Bits.encQAtom qmdl (qAtom r o none) none with
+    | error e => rw [hQ] at base; cases base
+    | ok m =>
+      rw [hQ] at base
+      cases hA0 : Bits.encAtom r.mdl (mAtom r o (some 0) 0 0) with
+      | error e => rw [hA0] at base; cases base
+      | ok b0 =>
+        rw [hA0] at base
+        simp only [Option.some.injEq] at base
+        obtain ⟨hs0, hf0, hb0⟩ := (encAtom_ok _ _ _).mp hA0
+        have hm := encQAtom_ok _ _ _ _ hQ
+        subst hm; subst hb0
+        exact ⟨qmdl, rfl, hQ, hs0, hf0, base⟩
+
+theorem accel_struct (r : ElemRow) (q o : Obj) (h : Option Nat) (nb het : Nat)
+    (hh : subBits (1 <<< (Bits.hOr h + sHOff)) qHAll) (hhfit : 1 <<< (Bits.hOr h + sHOff) < Bits.two64)
+    (hnb : subBits (1 <<< (nb + sNbOff)) qNbAll) (hnbfit : 1 <<< (nb + sNbOff) < Bits.two64)
+    (hhet : subBits (1 <<< het) qHetAll) (hhetfit : 1 <<< het < Bits.two64)
+    (bq : accelFound r q none q (some 0) 0 0 = some true) (bo : accelFound r o none o (some 0) 0 0 = some true) :
+    ∃ qmdl, r.qmdl = some qmdl ∧
+      accelFound r q none o h nb het =
+        some (decide (subBits (coreV3 r.mdl (mAtom r o h nb het)) (Bits.qWords qmdl (qAtom r q none) none).v3)) := by
+  obtain ⟨qmdl, hq, hQq, _, _, _⟩ := base_unpack r q bq
+  obtain ⟨qmdl', hq', _, hs0, hf0, hroot⟩ := base_unpack r o bo
+  have : qmdl' = qmdl := by rw [hq] at hq'; injection hq' with h; exact h.symm
+  subst this
+  refine ⟨qmdl', hq, ?_⟩
+  have hs : Bits.atomShiftsOk r.mdl (mAtom r o h nb het) = true := hs0
+  rw [fit_iff] at hf0
+  have hv3 : (Bits.atomWords r.mdl (mAtom r o h nb het)).v3 =
+      coreV3 r.mdl (mAtom r o h nb het) ||| (1 <<< (Bits.hOr h + sHOff)) ||| (1 <<< (nb + sNbOff)) ||| (1 <<< het) := rfl
+  have hv30 : (Bits.atomWords r.mdl (mAtom r o (some 0) 0 0)).v3 =
+      coreV3 r.mdl (mAtom r o h nb het) ||| (1 <<< (Bits.hOr (some 0) + sHOff)) ||| (1 <<< (0 + sNbOff)) ||| (1 <<< 0) := rfl
+  have hcore_lt : coreV3 r.mdl (mAtom r o h nb het) < Bits.two64 := by
+    have : coreV3 r.mdl (mAtom r o h nb het) ≤ (Bits.atomWords r.mdl (mAtom r o (some 0) 0 0)).v3 := by
+      rw [hv30]
+      exact Nat.le_trans (Nat.le_trans Nat.left_le_or Nat.left_le_or) Nat.left_le_or
+    have h3 := hf0.2.2.1
+    omega
+  have hf : (Bits.atomWords r.mdl (mAtom r o h nb het)).fit = true := by
+    rw [fit_iff]
+    refine ⟨hf0.1, hf0.2.1, ?_, hf0.2.2.2⟩
+    rw [hv3]
+    exact Nat.or_lt_two_pow (Nat.or_lt_two_pow (Nat.or_lt_two_pow hcore_lt hhfit) hnbfit) hhetfit
+  have hA : Bits.encAtom r.mdl (mAtom r o h nb het) = .ok (Bits.atomWords r.mdl (mAtom r o h nb het)) :=
+    (encAtom_ok _ _ _).mpr ⟨hs, hf, rfl⟩
+  unfold accelFound
+  rw [hq]
+  simp only
+  rw [hQq, hA]
+  simp only [Option.some.injEq]
+  simp only [Bits.rootOk, Bool.and_eq_true] at hroot
+  obtain ⟨⟨⟨h1, h2⟩, _⟩, h4⟩ := hroot
+  have t1 : ((Bits.qWords qmdl' (qAtom r q none) none).v1 &&& (Bits.atomWords r.mdl (mAtom r o h nb het)).v1 != 0) = true := h1
+  have t2 : ((Bits.qWords qmdl' (qAtom r q none) none).v2 &&& (Bits.atomWords r.mdl (mAtom r o h nb het)).v2
+      == (Bits.atomWords r.mdl (mAtom r o h nb het)).v2) = true := h2
+  have t4 : ((Bits.qWords qmdl' (qAtom r q none) none).v4 &&& (Bits.atomWords r.mdl (mAtom r o h nb het)).v4 != 0) = true := h4
+  simp only [Bits.rootOk, t1, t2, t4, Bool.true_and, Bool.and_true]
+  rw [Bool.eq_iff_iff]
+  simp only [beq_iff_eq, decide_eq_true_eq]
+  show subBits (Bits.atomWords r.mdl (mAtom r o h nb het)).v3 (Bits.qWords qmdl' (qAtom r q none) none).v3 ↔ _
+  have hm3 := qV3_split r qmdl' q
+  rw [hv3, subBits_or, subBits_or, subBits_or]
+  constructor
+  · intro hx; exact hx.1.1.1
+  · intro hc
+    refine ⟨⟨⟨hc, ?_⟩, ?_⟩, ?_⟩
+    · rw [hm3]; exact subBits_left _ _ _ (subBits_left _ _ _ (subBits_right _ _ _ hh))
+    · rw [hm3]; exact subBits_right _ _ _ hnb
+    · rw [hm3]; exact subBits_left _ _ _ (subBits_right _ _ _ hhet)
+
+/-- the isotope clause of the documented rule -/
+def isoSel (j i : Option Nat) : Bool := match j with | none => true | some k => i == some k
+
+theorem core_sub_iff (mdl qmdl : Nat) (i j : Option Nat) (ro rq : Bool) (c qc : Int)
+    (d1 : isoRadV3 mdl i ro &&& qRest qc = 0)
+    (d2 : (qIsoRadV3 qmdl j rq).testBit (chargeBit c) = false)
+    (d3 : (qRest qc).testBit (chargeBit c) = (qc == c))
+    (d4 : decide (subBits (isoRadV3 mdl i ro) (qIsoRadV3 qmdl j rq)) = (isoSel j i && rq == ro)) :
+    decide (subBits (isoRadV3 mdl i ro ||| (1 <<< chargeBit c)) (qIsoRadV3 qmdl j rq ||| qRest qc))
+      = (isoSel j i && qc == c && rq == ro) := by
+  have d4' : subBits (isoRadV3 mdl i ro) (qIsoRadV3 qmdl j rq) ↔ (isoSel j i = true ∧ (rq == ro) = true) := by
+    rw [← Bool.and_eq_true, ← d4, decide_eq_true_eq]
+  rw [Bool.eq_iff_iff]
+  simp only [decide_eq_true_eq, Bool.and_eq_true]
+  rw [subBits_or, subBits_disjoint _ _ _ d1, subBits_bit, Nat.testBit_or, d2, d3, d4', Bool.false_or]
+  constructor
+  · rintro ⟨⟨a, b⟩, c⟩; exact ⟨⟨a, c⟩, b⟩
+  · rintro ⟨⟨a, c⟩, b⟩; exact ⟨⟨a, b⟩, c⟩
+
+theorem selects_eq (q o : Obj) (h : Option Nat) :
+    selects q none o h = (isoSel q.isotope o.isotope && q.charge == o.charge && q.radical == o.radical) := by
+  obtain ⟨qi, qc, qr⟩ := q
+  cases qi <;> simp [selects, isoSel]
+
 end ChythonModel.Proofs.C18
